@@ -89,7 +89,8 @@ def main():
         rec["check_with_failing_input"] = any(l.startswith("VIOLATION") and "no-failing-input-found" not in l for l in lines)
         rec["check_output"] = lines[:25]
         reset(wt)
-        dst = os.path.join(VERIF, "seeded", "%s-%s" % (pid, n))
+        rnd = os.environ.get("SEED_ROUND", "")
+        dst = os.path.join(VERIF, "seeded", "%s-%s%s" % (pid, (rnd + "-") if rnd else "", n))
         os.makedirs(dst, exist_ok=True)
         shutil.copy(patch, os.path.join(dst, "patch.diff"))
         if demo:
@@ -97,7 +98,7 @@ def main():
         elif os.path.isdir(demo_dir):
             shutil.copytree(demo_dir, os.path.join(dst, "demo"), dirs_exist_ok=True)
         json.dump(rec, open(os.path.join(dst, "meta.json"), "w"), indent=1)
-        print("%s-%s confirmed=%s detected=%s with_input=%s :: %s" % (pid, n, confirmed, rec["check_detected"], rec["check_with_failing_input"], meta.get("summary", "")[:110]))
+        print("%s-%s%s confirmed=%s detected=%s with_input=%s :: %s" % (pid, (os.environ.get("SEED_ROUND", "") + "-") if os.environ.get("SEED_ROUND") else "", n, confirmed, rec["check_detected"], rec["check_with_failing_input"], meta.get("summary", "")[:110]))
         if not confirmed:
             print("   not confirmed:", {k: rec.get(k) for k in ("applies", "builds", "existing_tests_pass", "demo_fails_with_change", "demo_passes_without_change")})
     # restore harness go.mod to /repo
